@@ -68,6 +68,12 @@ func asStringSlice(v interface{}) ([]string, bool) {
 	return nil, false
 }
 
+// noOption is what a definition entry stands for when it asks for the default (auth-strict-key:
+// true, auth-bypass: false): an option every object it is applied to ignores.
+func noOption(_ interface{}) error {
+	return util.ErrIgnoredOption
+}
+
 // asSeconds returns v as a number of seconds: yaml decodes a whole number ("timeout-ops: 60") into
 // an int, not a float64.
 func asSeconds(v interface{}) (float64, bool) {
@@ -94,9 +100,30 @@ func (o *optionDefinitions) asOptions() []util.Option { //nolint: gocyclo,gocogn
 
 			opts[i] = options.WithPort(intVal)
 		case authBypass:
-			opts[i] = options.WithAuthBypass()
+			// no value: the entry is a plain flag (bypass on); otherwise the value decides
+			boolVal, ok := opt.Value.(bool)
+			if !ok && opt.Value != nil {
+				panic("option authBypass value must be a bool")
+			}
+
+			if boolVal || opt.Value == nil {
+				opts[i] = options.WithAuthBypass()
+			} else {
+				opts[i] = noOption
+			}
 		case authStrictKey:
-			opts[i] = options.WithAuthNoStrictKey()
+			// "auth-strict-key: true" asks for strict host key checking, which is the default; only
+			// false (or, as before, an entry without a value) turns it off
+			boolVal, ok := opt.Value.(bool)
+			if !ok && opt.Value != nil {
+				panic("option authStrictKey value must be a bool")
+			}
+
+			if boolVal {
+				opts[i] = noOption
+			} else {
+				opts[i] = options.WithAuthNoStrictKey()
+			}
 		case promptPattern:
 			strVal, ok := opt.Value.(string)
 			if !ok {
